@@ -601,3 +601,27 @@ Section GuardsFour.
     intros s0 st0 l0 st1. apply ms_ite_ok.
   Qed.
 End GuardsFour.
+
+(* any user function will do: the guards theorems do not mention it *)
+Definition noF (f : string) (pos : list val) (kw : list (string * val)) : option (list val) := None.
+
+Theorem guards_thm lsr lbr snv sds fixed ff ords :
+  ff = true ->
+  forall t t' st',
+    (eliminate_self_dependencies lsr lbr snv sds ords t = TOk (t', st') /\ forallb sd_leaf (tstmts t) = true) \/
+    (isolate_function_arguments lsr lbr snv t = TOk (t', st') /\ forallb fai_leaf (tstmts t) = true) \/
+    (isolate_function_calls lsr lbr snv fixed t = TOk (t', st') /\ forallb fci_leaf (tstmts t) = true) \/
+    (expand_IfThenElse lsr lbr snv ff t = TOk (t', st') /\ forallb ite_leaf (tstmts t) = true) ->
+    derives carries_guard t t'.
+Proof.
+  intros -> t t' st' [[E H]|[[E H]|[[E H]|[E H]]]].
+  - eapply (guards_sd noF false); eauto.
+  - eapply (guards_fai noF false); eauto.
+  - eapply (guards_fci noF false); eauto.
+  - eapply (guards_ite noF false); eauto.
+Qed.
+
+(* a derived guard that holds implies the guard of the original statement *)
+Theorem guard_implied F c g s r :
+  gext c g -> cond_t F s g = (r, Ok true) -> exists r', cond_t F s c = (r', Ok true).
+Proof. apply gext_holds. Qed.
